@@ -23,7 +23,7 @@ def gen_run(rng, first):
     if end in ("exc", "kill_in"):
         run["k"] = rng.randint(0, len(jobs))
     elif end == "kill_moving":
-        run["k"] = rng.choice([0, 0, 1, 1, 2, 3])
+        run["k"] = rng.choice([0, 0, 0, 1, 1, 2])
     elif end == "kill_exit":
         run["k"] = rng.choice([0, 1, 1, 2, 2, 3, 4, 6])
     run["sync"] = rng.random() < (0.8 if end != "ok" else 0.3)
@@ -245,12 +245,12 @@ def oracle_case(case, res):
     o.links_ok(res["s_held"], n)
     o.keep |= set(names(res["s_held"]["jobs"])) & set(subs_of(res["p1_log"]))
     o.kept(res["s_waiting"], n)
+    if case["leave"] == "ok":       # the first process's block ended without exception: its plan is the completed one
+        o.keep = set(names(res["s_held"]["jobs"])) & set(subs_of(res["p1_log"]))
     if res["p2_after"] and not res.get("p2_timeout"):
         o.kept(res["s_p2in"], n + 1)
         o.links_ok(res["s_end"], n + 1)
         if "exited" in res["p2_log"]:
-            if case["leave"] == "ok":
-                pass
             o.completed(res["s_end"], subs_of(res["p2_log"]), n + 1)
             o.keep = set(subs_of(res["p2_log"]))
             o.kept(res["s_end"], n + 1)
